@@ -30,6 +30,9 @@ FLAVOURS = {
                        ckw={"alpn": [b"h2", b"http/1.1"],
                             "serverName": "example.test"},
                        skw={"alpn": [b"http/1.1", b"h2"]}),
+    # the client has a certificate but the server does not ask for it
+    "rsa-clientcred-unrequested": dict(flavour="cert", cred="rsa",
+                                       client_cred="c_rsa", req_cert=False),
     "rsapss": dict(flavour="cert", cred="rsapss"),
     "ecdsa": dict(flavour="cert", cred="ecdsa"),
     "ecdsa384": dict(flavour="cert", cred="ecdsa384"),
